@@ -27,7 +27,7 @@ TEETH = {
 PROBES = {
     "C05": [("Probe_AutoWithMode", "L2"), ("Probe_Overrun", "L1"), ("Probe_SelectOverrides", "L2"), ("Probe_SmGo", "L5"),
             ("Probe_SmReqSurvivesDisable", "L5")],
-    "C06": [("Probe_DirectSwitch", "L1"), ("Probe_Exited", "L1")],
+    "C06": [("Probe_DirectSwitch", "L1"), ("Probe_Exited", "L1"), ("Probe_StaleDispatch", "L1")],
     "C07": [("Probe_Swallow", "L1"), ("Probe_Crash", "L1")],
     "C10": [("Probe_ResetWritten", "L3")],
     "C11": [("Probe_Swallow", "L1")],
